@@ -323,6 +323,63 @@ theorem no_racy_site_equals_sequential (tbl : List SharedWrite) (h : ∀ r ∈ t
     subst hp1
     exact ⟨c, rfl, hp2⟩
 
+/-- Same-value writes: if every write to a cell, in every program, stores the SAME constant `k c`, and every program reads
+    a cell only after having written it itself, then the programs are linearizable for EVERY schedule - although they
+    write and read common cells (`conflictFreeB` is false).  This is why concurrent `Set` / `ImmutableSet` / `Map` /
+    `AllOf` / `AnyOf` validations of the SAME field are harmless on the current tree (they all write the field's own
+    name), while `Array[X]` (`a_0`, `a_1`, … per element) is not. -/
+theorem same_value_writes_linearizable (k : Nat → String) (sh : Shared) (progs : List (List Step))
+    (hu : ∀ p ∈ progs, uniformB k p = true) (hr : ∀ p ∈ progs, readsAfterOwnWrite [] p = true) :
+    Linearizable sh progs := by
+  intro sched i r hres
+  unfold resultAt at hres
+  cases ht : (run (Cfg.init sh progs) sched).threads[i]? with
+  | none => simp [ht] at hres
+  | some t =>
+    simp only [ht] at hres
+    cases hp : progs[i]? with
+    | none =>
+      have hlen : ∀ (sched : List Nat) (cfg : Cfg), (run cfg sched).threads.length = cfg.threads.length := by
+        intro sched
+        induction sched with
+        | nil => intro cfg; rfl
+        | cons j rest ih =>
+          intro cfg
+          rw [run_cons, ih]
+          cases hj : cfg.threads[j]? with
+          | none => rw [stepAt_none hj]
+          | some tj => rw [stepAt_some hj]; simp
+      have h1 : i < (run (Cfg.init sh progs) sched).threads.length := (List.getElem?_eq_some_iff.mp ht).1
+      rw [hlen] at h1
+      have h2 : progs.length ≤ i := List.getElem?_eq_none_iff.mp hp
+      simp [Cfg.init] at h1
+      omega
+    | some p =>
+      refine ⟨p, rfl, ?_⟩
+      have hi : (Cfg.init sh progs).threads[i]? = some (TState.init p) := by simp [Cfg.init, hp]
+      have hall : ∀ (j : Nat) (tj : TState), (Cfg.init sh progs).threads[j]? = some tj → uniformB k tj.prog = true := by
+        intro j tj htj
+        obtain ⟨q, hq, rfl⟩ := init_get htj
+        exact hu q (List.mem_of_getElem? hq)
+      have := run_uniform k i sched (Cfg.init sh progs) (TState.init p) sh [] hi hall
+        (hr p (List.mem_of_getElem? hp)) (fun c hc => nomatch hc)
+      rw [ht] at this
+      have ht' : t = (alone sh (TState.init p) (sched.count i)).2 := Option.some.inj this
+      rw [ht'] at hres
+      exact result_of_alone hres
+
+/-- non-vacuity: two `Set.__set__` calls on the SAME field (one item object, cell 0) and two `Map.__set__` calls on the same
+    field are NOT conflict free, yet satisfy the hypotheses of `same_value_writes_linearizable`; `Array[X]` does not -/
+theorem same_value_writes_example :
+    conflictFreeB [progSet 0 "a" [(1, true), (2, true)], progSet 0 "a" [(3, true)]] = false ∧
+    uniformB (fun _ => "a") (progSet 0 "a" [(1, true), (2, true)]) = true ∧
+    readsAfterOwnWrite [] (progSet 0 "a" [(1, true), (2, true)]) = true ∧
+    uniformB (fun c => if c = 0 then "a_key" else "a_value") (progMap 0 1 "a" [((1, true), (2, true))]) = true ∧
+    readsAfterOwnWrite [] (progMap 0 1 "a" [((1, true), (2, true))]) = true ∧
+    uniformB (fun _ => "a") (progAnyOf (.const "a") 5 [(0, true), (1, false)]) = true ∧
+    readsAfterOwnWrite [] (progAnyOf (.const "a") 5 [(0, true), (1, false)]) = true ∧
+    uniformB (fun _ => "a") (progHomog 0 "a" true [(20, true), (21, true)]) = false := by decide
+
 /-- Clause 1 of C20 holds in the model for EVERY schedule and every set of programs, racy or not: the result of a thread
     only contains values of that thread's own input (the temp structures are thread-private; what the race corrupts is
     WHICH of the thread's own elements is read back, or whether one is found at all). -/
@@ -442,6 +499,24 @@ theorem counter_wrong_field_named_allof :
     sequentialResult sh0 (progAllOf (.const "a") (-1) [(0, false), (1, true)]) = some (.raised (.invalid "a")) := by
   decide
 
+/-- sites `multified_wrappers.py:OneOf.__set__` + `array.py:extract_field_value`, `a = Array[OneOf[Integer(minimum=0), String]]`
+    (cell 0 = the OneOf object, whose own `_name` is the scratch of the outer loop; cells 1, 2 = its options): thread 0's
+    `[-4]` matches no option; its error names `a` (what thread 1's first write left) instead of element `a_0` -/
+theorem counter_wrong_field_named_nested_oneOf :
+    resultAt (run (Cfg.init sh0 [progNest 0 "a" .oneOf [(-4, [(1, false), (2, false)])],
+        progNest 0 "a" .oneOf [(7, [(1, true), (2, false)])]]) [0,0,0,0,1,0,0,0,0,0]) 0 = some (.raised (.invalid "a")) ∧
+    sequentialResult sh0 (progNest 0 "a" .oneOf [(-4, [(1, false), (2, false)])]) = some (.raised (.invalid "a_0")) := by
+  decide
+
+/-- sites `multified_wrappers.py:NotField.__set__` + `array.py:extract_field_value`, `a = Array[NotField[String]]`: thread 1
+    silently stores `[20, 20, 22]` for the input `[20, 21, 22]` -/
+theorem counter_wrong_element_nested_notField :
+    resultAt (run (Cfg.init sh0 [progNest 0 "a" .notField [(10, [(1, false)])],
+        progNest 0 "a" .notField [(20, [(1, false)]), (21, [(1, false)]), (22, [(1, false)])]])
+      [1,1,1,1,1,1,1,1,1,1,1,1,1, 0,0,0, 1,1,1,1,1,1,1, 0,0,0,0,0]) 1 = some (.ok [20, 20, 22]) ∧
+    sequentialResult sh0 (progNest 0 "a" .notField [(20, [(1, false)]), (21, [(1, false)]), (22, [(1, false)])])
+      = some (.ok [20, 21, 22]) := by decide
+
 /-! ### the model follows the table -/
 
 def efvKey : String := "shared-_name:array.py:extract_field_value"
@@ -464,7 +539,7 @@ theorem model_follows_table :
     (∀ r ∈ repairedTable, (!r.safe && r.readBack) = false) := by decide
 
 /-- calls whose reads of the scratch cells are dead: flat `OneOf` / `NotField` (option errors are swallowed, option results
-    dropped) -/
+    dropped, the value is stored under the wrapper's own name) -/
 def deadReads : Call → Bool
   | .wrap .oneOf _ _ _ => true
   | .wrap .notField _ _ _ => true
@@ -474,7 +549,9 @@ def deadReads : Call → Bool
     rename option Field objects that other threads (and other fields) use: nothing ever reads the written name back
     effectively.  (Their rows stay in the table - the writes ARE there - but by themselves they cannot change a result;
     what the harness attributes to these sites is the race on the OWNER's name when the wrapper is nested under a
-    homogeneous collection, i.e. the extract_field_value finding.) -/
+    homogeneous collection, i.e. the extract_field_value finding: `counter_wrong_field_named_nested_oneOf`,
+    `counter_wrong_element_nested_notField`.)  NOT true of the store-through variant of tree b6495fe:
+    `counter_missing_key_oneof_through`. -/
 theorem flat_oneOf_notField_linearizable (sh : Shared) (calls : List Call) (h : ∀ c ∈ calls, deadReads c = true) :
     Linearizable sh (calls.map Call.prog) := by
   apply conflict_free_linearizable
@@ -493,6 +570,8 @@ theorem flat_oneOf_notField_linearizable (sh : Shared) (calls : List Call) (h : 
       | notField => simp [Call.prog, notField_reads] at hr
       | allOf => simp [deadReads] at hd
       | anyOf => simp [deadReads] at hd
+      | allOfThrough => simp [deadReads] at hd
+      | oneOfThrough => simp [deadReads] at hd
     | _ => simp [deadReads] at hd
 
 /-- non-vacuity: two `OneOf` fields sharing their option objects, fully interleaved -/
@@ -500,6 +579,21 @@ theorem flat_oneOf_example :
     resultAt (run (Cfg.init sh0 [progOneOf (.const "a") 5 [(0, true), (1, false)], progOneOf (.const "b") 7 [(0, true), (1, false)]])
       [0,1,0,1,0,1,0,1,0,1,0,1]) 0 = some (.ok [5]) ∧
     deadReads (.wrap .oneOf "a" 5 [(0, true), (1, false)]) = true := by decide
+
+/-- the store-through `OneOf.__set__` of tree b6495fe (fix 95931f6: the matched option stores the value; replaced by
+    89fd84a), one option Field instance used by `a = OneOf[opt, String]` and `b = OneOf[opt, String]`: thread 0 (`x.a = 5`)
+    is pre-empted before `matched_field.__set__(instance, value)`; the value lands under `b` and
+    `instance.__dict__["a"]` raises KeyError.  (The repair of C19 had made a dead write live.) -/
+theorem counter_missing_key_oneof_through :
+    resultAt (run (Cfg.init sh0 [progOneOfThrough (.const "a") 5 [(0, true), (1, false)],
+        progOneOfThrough (.const "b") 7 [(0, true), (1, false)]]) [0,0,0,0,1,0,0]) 0 = some (.raised (.missing "a")) ∧
+    sequentialResult sh0 (progOneOfThrough (.const "a") 5 [(0, true), (1, false)]) = some (.ok [5]) := by decide
+
+/-- the store-through `AllOf.__set__` of tree b6495fe: same KeyError -/
+theorem counter_missing_key_allof_through :
+    resultAt (run (Cfg.init sh0 [progAllOfThrough (.const "a") 5 [(0, true), (1, true)],
+        progAllOfThrough (.const "b") 7 [(0, true), (1, true)]]) [0,0,0,0,1,0,0]) 0 = some (.raised (.missing "a")) ∧
+    sequentialResult sh0 (progAllOfThrough (.const "a") 5 [(0, true), (1, true)]) = some (.ok [5]) := by decide
 
 /-- the full statement is false -/
 theorem C20_statement_false : ¬ C20_statement := by
@@ -523,7 +617,7 @@ def knownFindingKeys : List String := [
   "shared-_name:multified_wrappers.py:AnyOf.__set__",
   "shared-_name:multified_wrappers.py:OneOf.__set__",
   "shared-_name:multified_wrappers.py:NotField.__set__",
-  "shared-<container>:structures.py:UniqueMixin.__manage_uniqueness_for_field__"
+  "shared-_name:multified_wrappers.py:AnyOf.serialize"
 ]
 
 /-- does the current working tree still have a racy validator site?  (`false` ⇒ `no_racy_site_linearizable` applies to
